@@ -177,7 +177,7 @@ func (x *Exec) obligeAt(st *State, fn *ssa.Function, kind, name string, goal Ter
 		// contract-level obligations that the term rewriter already reduced to true are recorded as
 		// discharged by it (so that evidence counts them); implicit safety checks that fold are not
 		switch kind {
-		case "ensures", "requires", "guarantee", "invariant-entry", "invariant-preserved", "site", "stmt-binding", "tx-typestate", "sql", "loop-exit":
+		case "ensures", "requires", "guarantee", "invariant-entry", "invariant-preserved", "site", "stmt-binding", "tx-typestate", "sql", "loop-exit", "contract":
 		default:
 			return
 		}
